@@ -82,8 +82,11 @@ int32_t matrixSslValidatePeerCerts(ssl_t *ssl,
     psCheckSetPathLenFailure(ssl, ssl->sec.cert);
     rc = psCheckValidationResult(ssl,
             ssl->sec.cert);
-    if (rc >= 0 && (ssl->keys == NULL || ssl->keys->CAcerts == NULL))
+    if ((rc >= 0 || ssl->err == SSL_ALERT_CERTIFICATE_EXPIRED)
+        && (ssl->keys == NULL || ssl->keys->CAcerts == NULL))
     {
+        /* (certificate_expired is the verdict for a chain whose ONLY defect
+           is a date: an unauthenticated chain is not that) */
         /* Without CA certificates matrixValidateCertsExt only checks that
            the chain ends in a self-signed certificate.  As in the
            TLS <= 1.2 path, a chain that no local trust anchor has
